@@ -28,6 +28,9 @@ FUNCTIONS = [
     ('EdifNamespace', 'lookup', 'method', [('element_type', 'is:Foreign'), ('key', 'key'), ('value', 'is:Foreign')]),
 ]
 NS_CLASSES = ('DefaultNamespace', 'EdifNamespace')
+# the ten hooks the dispatcher calls for structural edits: (hook, parent class, child class)
+WRAPPERS = [('definition_%s_port', 'Definition', 'Port'), ('definition_%s_child', 'Definition', 'Instance'), ('definition_%s_cable', 'Definition', 'Cable'),
+            ('library_%s_definition', 'Library', 'Definition'), ('netlist_%s_library', 'Netlist', 'Library')]
 FILES['NamespaceManager'] = 'spydrnet/plugins/namespace_manager/__init__.py'
 _PAR = 'is:Netlist|Library|Definition'
 FUNCTIONS += [
@@ -38,6 +41,9 @@ FUNCTIONS += [
     ('NamespaceManager', 'dictionary_delete', 'method', [('element', _EL), ('key', 'key')]),
     ('NamespaceManager', 'dictionary_pop', 'method', [('element', _EL), ('key', 'key')]),
 ]
+for _w, _pc, _cc in WRAPPERS:
+    for _k in ('add', 'remove'):
+        FUNCTIONS.append(('NamespaceManager', _w % _k, 'method', [('parent', 'is:' + _pc), ('child', 'is:' + _cc)]))
 
 
 class NSSpec(IRSpec):
@@ -336,7 +342,7 @@ def same_policy(c, spec, h, a, b):
 def arg_pre(ctx, spec, h0, qual, args):
     """preconditions that mention arguments"""
     c = ctx
-    if qual == 'NamespaceManager.add':
+    if qual == 'NamespaceManager.add' or any(qual == 'NamespaceManager.' + w % 'add' for w, _, _ in WRAPPERS):
         # switching the policy of a subtree (apply_namespace / drop_namespace / is_compliant work-lists) is outside this contract:
         # parent and child carry the same policy, as they do whenever both were created under one process-wide default
         par, ch = args[1][1], args[2][1]
@@ -432,7 +438,18 @@ def mpost(fname):
     return f
 
 
+def wpost(kind):
+    """hook(parent, child) == add(parent, child) / remove(child, parent=parent)"""
+    def f(ctx, spec, h0, s, ekind, args, val):
+        if kind == 'add': return mpost('add')(ctx, spec, h0, s, ekind, args, val)
+        return mpost('remove')(ctx, spec, h0, s, ekind, [args[0], args[2], R(ctx.null), args[1]], val)
+    return f
+
+
 POSTS = {'%s.%s' % (f[0], f[1]): (post(f[0], f[1]) if f[0] != 'NamespaceManager' else mpost(f[1])) for f in FUNCTIONS}
+for _w, _pc, _cc in WRAPPERS:
+    for _k in ('add', 'remove'):
+        POSTS['NamespaceManager.' + _w % _k] = wpost(_k)
 
 
 # ------------------------------------------------------------------ lemmas over the hook contracts (no code involved)
